@@ -204,6 +204,8 @@ func readAll(sh *shard.Shard, pool []uuid.UUID) (string, map[uuid.UUID]Val, erro
 }
 
 // isMemCfg: configurations on the in-memory backend (no file, no transactions).
+var extrasSweepDone []bool
+
 func isMemCfg(cfg int) bool { return cfg == 4 || cfg == 5 }
 
 func runShardChild(a childArgs) error {
@@ -365,6 +367,12 @@ func runShardChild(a childArgs) error {
 		}
 		if b.note != 0 {
 			extras = append(extras, fmt.Sprintf("(XNote %d)", b.note))
+		}
+		if a.profile == "c03" && a.idx == 0 && a.cfg == 0 && len(extrasSweepDone) == 0 {
+			extrasSweepDone = append(extrasSweepDone, true)
+			if !c03VisitedSweepOK() {
+				extras = append(extras, "(XNote 950)")
+			}
 		}
 		emit(fmt.Sprintf("R\t%s\t%d\t%s\t%s\t%s\t%s", out, info.PointCount, live, pList(qitems), lower, pList(extras)))
 	}
